@@ -301,6 +301,15 @@ class Scan:
 
     # ---------------- rule C ----------------
     def rule_c(self):
+        # id / hash used as a VALUE (key=id, map(hash, ...)) is as address / hash-seed dependent as a call
+        for n in ast.walk(self.tree):
+            if isinstance(n, ast.Name) and isinstance(n.ctx, ast.Load) and n.id in ("id", "hash"):
+                p = getattr(n, "_parent", None)
+                if isinstance(p, ast.Call) and p.func is n:
+                    continue
+                if (self.rel, _qualname(n)) in ALLOW_C:
+                    continue
+                self.add(n, "C", "builtin %s passed as a value in %s (address / hash-seed dependent ordering or keys)" % (n.id, _qualname(n)))
         from_time = getattr(self, "from_time", set())
         datetime_cls = getattr(self, "datetime_cls", set())
         # names whose only loads are inside logging calls may hold a clock reading
